@@ -178,8 +178,10 @@ bool SchemaValidator::checkContent (XMLElementDecl* const elemDecl
 
             if (fNil)
             {
+                // 3.2.2 only a *fixed* value constraint is forbidden, a default is fine
                 if ((!XMLString::equals(value, XMLUni::fgZeroLenString))
-                    || elemDefaultValue)
+                    || (elemDefaultValue &&
+                        (((SchemaElementDecl*)elemDecl)->getMiscFlags() & SchemaSymbols::XSD_FIXED) != 0))
                 {
                     emitError(XMLValid::NilAttrNotEmpty, elemDecl->getFullName());
                     fErrorOccurred = true;
